@@ -175,6 +175,26 @@ theorem quoted_float_same (pf : Bytes → Fl) (val : Bytes) :
     · right; intro h2; exact hne ⟨h1, h2⟩
     · left; exact h1
 
+/-- The v1 legacy arm (`StringifyWithLegacySemantics`) agrees with the v2 quoted arm on every JSON number, provided
+the Go-syntax parser at the destination width agrees with the JSON-number parser there (it does: the Go float
+syntax contains the JSON one) — in particular it rounds once, at the width of the destination, and an overflow of
+that width is a range error. -/
+theorem legacy_same_on_numbers (pf : Bytes → Fl) (pfGo : Bytes → Except NumErr Fl) (val : Bytes) (hj : JNumber val)
+    (hagree : pfGo val = if (pf val).inf then .error .range else .ok (pf val)) :
+    unmarshalFloatLegacy pfGo val = unmarshalFloatValue pf true .str val := by
+  have hnull : (val == [110, 117, 108, 108]) = false := by
+    cases hb : (val == [110, 117, 108, 108]) with
+    | false => rfl
+    | true =>
+      have : val = [110, 117, 108, 108] := by simpa using hb
+      subst this
+      have hc := consumeNumber_of_JNumber _ hj
+      exact absurd hc (by decide)
+  rw [(quoted_float_same pf val).1 hj]
+  by_cases hi : (pf val).inf = true
+  · simp [unmarshalFloatLegacy, unmarshalFloatValue, hagree, hi, hnull]
+  · simp [unmarshalFloatLegacy, unmarshalFloatValue, hagree, hi]
+
 /-- The law of strconv a float round trip needs (validated by harness/c10.go: AppendFloat's text parses back to
 identical bits, for every float32 and a stratified sample of float64): well-formed shortest digits, and the text
 reads back as the value — for the values in `dom`, the normal forms that denote float64/float32 values (`Fl` has
